@@ -100,7 +100,11 @@ def alpha(s):
 
 
 def norm_snip(s):
-    return alpha(re.sub(r"\s+", " ", s or "").strip()[:160])
+    """whitespace-normalised, place chains atomised (`self.siblings.len()` -> `self.len()`, `a.0 + b.c` -> `$1 + $2`: turning
+    a tuple into a struct or a local into a field does not change the key), identifiers alpha-renamed"""
+    s = re.sub(r"\s+", " ", s or "").strip()[:160]
+    s = re.sub(r"(?<![.\d])\.(?!\.)(?:[A-Za-z_]\w*|\d+)(?![\w]*\s*[(!])", "", s)
+    return alpha(s)
 
 
 def sites_of(body):
@@ -152,7 +156,8 @@ def inventory(facts):
         if body.derived:
             continue
         for s in sites_of(body):
-            base = (norm_fn(fn), s["kind"], s["what"], s["snip"])
+            # the ordinal counts sites with the same PRINTED key (short callee name), so that keys are unique
+            base = (norm_fn(fn), s["kind"], s["what"] if s["kind"] == "assert" else short_callee(s["what"]), s["snip"])
             counts[base] = counts.get(base, 0) + 1
             s["fn"] = fn
             s["key"] = site_key(fn, s, counts[base])
@@ -316,6 +321,49 @@ def is_guarded(body, site_bb, variant, facts=None):
     return False, "no branch returning Err(%s) dominates the site" % variant
 
 
+# ---- semantic signatures: what a site computes with, independent of how the expression is spelled ----------
+
+
+def _nleaf(x):
+    (k, key) = x
+    if k == "c":
+        return ("c", str(key))
+    (rk, _bb, what, fields) = key
+    w = short_callee(str(what)) if rk in ("call", "agg") else str(what)
+    return (k, rk, w, tuple(fields))
+
+
+def _nleaves(body, op):
+    return tuple(sorted({_nleaf(x) for x in leaves(body, op)}, key=repr))
+
+
+def site_sig(body, s):
+    """dataflow signature of a panic site: the origins (parameters, fields, calls, constants, lengths) of its operands.
+    Hoisting a sub-expression into a `let`, renaming, or turning a tuple into a struct leaves it unchanged."""
+    t = body.term(s["bb"])
+    try:
+        if t["k"] == "assert":
+            for r in trace(body, t["cond"]):
+                if r.kind == "binop" and r.obj is not None and r.obj.get("k") == "bin":
+                    return repr(("assert", t.get("ak"), r.obj.get("op"), _nleaves(body, r.obj["a"]), _nleaves(body, r.obj["b"])))
+            return repr(("assert", t.get("ak"), t.get("aop")))
+        if t["k"] == "call":
+            name = short_callee(t.get("callee") or "")
+            args = t.get("args", [])
+            parts = []
+            for i, a in enumerate(args[:3]):
+                rng = None
+                for r in trace(body, a):
+                    if r.kind == "agg" and r.obj is not None and "range::Range" in str(r.what) and not r.fields:
+                        fl = r.obj.get("fields", [])
+                        rng = ("range", short_callee(str(r.what)), tuple((f, _nleaves(body, r.obj["ops"][j])) for j, f in enumerate(fl)))
+                parts.append(rng if rng is not None else _nleaves(body, a))
+            return repr(("call", name, tuple(parts)))
+    except Exception as e:  # a signature is an optimisation for matching; never fatal
+        return "error:%s" % type(e).__name__
+    return "other"
+
+
 # ---- invariant: who may construct --------------------------------------------------------------
 
 
@@ -372,18 +420,66 @@ def strict_order_guard(body, variant):
     return found
 
 
+SIGS_FILE = __import__("os").path.join(__import__("os").path.dirname(__import__("os").path.abspath(__file__)), "panic_site_sigs.json")
+
+
+def load_sigs():
+    import json, os
+
+    if not os.path.exists(SIGS_FILE):
+        return {}
+    with open(SIGS_FILE) as fh:
+        return json.load(fh)
+
+
 def run(facts, rep, cfg="default"):
     reach, inv = inventory(facts)
     disp = PS.SITES
     seen_keys = set()
     counts = {"guarded": 0, "reviewed": 0, "invariant": 0, "precondition": 0, "finding": 0, "none": 0}
     inv_checked = {}
+    # a site whose exact key is unknown may have MOVED (code extracted into a helper, a function split into phases): it is
+    # matched with a listed site of the same kind and expression that no longer exists where it was listed.  Machine-checked
+    # dispositions (guarded / invariant / precondition) are re-verified at the new location.
+    exact = {s["key"] for s in inv}
+    def base_of(k):
+        parts = k.split("|")
+        return "|".join(parts[1:-1])
+    spare = {}
+    for k in disp:
+        if k not in exact:
+            spare.setdefault(base_of(k), []).append(k)
+    moved = {}
+    for s in inv:
+        if s["key"] not in disp:
+            cands = spare.get(base_of(s["key"]), [])
+            if cands:
+                moved[s["key"]] = cands.pop(0)
+    # ... or may have been RE-SPELLED (a sub-expression hoisted into a `let`, a field turned into a local): it is matched with
+    # a listed site of the same function family whose recorded dataflow signature (rules/panic_site_sigs.json, generated from
+    # the tree the table was reviewed on) equals the signature computed now.
+    sigs = load_sigs()
+    taken = set(moved.values())
+    by_sig = {}
+    for k in disp:
+        if k not in exact and k not in taken and k in sigs:
+            by_sig.setdefault((k.split("|")[1], sigs[k]), []).append(k)
+    for s in inv:
+        if s["key"] not in disp and s["key"] not in moved:
+            sg = site_sig(facts.bodies[s["fn"]], s)
+            cands = by_sig.get((s["key"].split("|")[1], sg), [])
+            if cands and not sg.startswith(("error", "other")):
+                moved[s["key"]] = cands.pop(0)
+    rep.extra["moved_sites"] = [{"site": k, "listed_as": v} for k, v in sorted(moved.items())][:40]
     for s in inv:
         key = s["key"]
-        seen_keys.add(key)
         fn = s["fn"]
         fnk = fn.split("::", 1)[1]
         d = disp.get(key)
+        if d is None and key in moved:
+            d = disp[moved[key]]
+            seen_keys.add(moved[key])
+        seen_keys.add(key)
         if d is None:
             counts["none"] += 1
             rep.violation("panicfree", fnk, "site|" + key.split("|", 1)[1], "undisposed panic site reachable from the verifier entry points: %s %s `%s` at %s (reached via %s)" % (s["kind"], s["what"], s["snip"], s["ln"], reach.get(fn)), site=s["ln"])
@@ -464,6 +560,22 @@ def run(facts, rep, cfg="default"):
                         rep.violation("panicfree", pf, "precondition=%s|function-missing" % pname, "function %s that establishes `%s` no longer exists" % (pf, spec["text"]))
                         continue
                     gs = strict_order_guard(b, spec["variant"])
+                    if not any(g[3] for g in gs):
+                        # the validation may live in a helper of the verifier (`check_ops(..)?`)
+                        seen_h, st_h = set(), [c for (_b, c, _t, k) in facts.callees(b) if k == "call"]
+                        depth_h = {c: 1 for c in st_h}
+                        while st_h:
+                            hc = st_h.pop()
+                            hb = facts.bodies.get(hc)
+                            if hc in seen_h or hb is None or hb.crate != "nomt_core" or hb.kind == "Closure":
+                                continue
+                            seen_h.add(hc)
+                            gs = gs + strict_order_guard(hb, spec["variant"])
+                            if depth_h[hc] < 2:
+                                for (_b, c2, _t, k2) in facts.callees(hb):
+                                    if k2 == "call" and c2 not in depth_h:
+                                        depth_h[c2] = depth_h[hc] + 1
+                                        st_h.append(c2)
                     ok = any(g[3] for g in gs)
                     rep.check(ok, "panicfree", pf.split("::", 1)[1], "precondition=%s|established" % pname, "%s no longer rejects (Err(%s)) exactly the operation lists that are not strictly ascending: panic sites in the sub-trie builder rely on `%s` (found comparisons: %s)" % (pf, spec["variant"], spec["text"], [(g[1], g[2]) for g in gs]), site=b.span, detail="Err(%s) taken when %s" % (spec["variant"], [(g[1], g[2]) for g in gs if g[3]]))
             rep.ok("panicfree", fnk, "precondition|" + key.split("|", 1)[1], detail=None)
